@@ -3,6 +3,7 @@ module ksverif/harness
 go 1.17
 
 require (
+	github.com/clbanning/mxj/v2 v2.5.5
 	github.com/kubeshark/base v0.0.0
 	github.com/ohler55/ojg v1.14.5
 	github.com/segmentio/kafka-go v0.4.38
@@ -11,7 +12,6 @@ require (
 
 require (
 	github.com/alecthomas/participle/v2 v2.0.0-alpha7 // indirect
-	github.com/clbanning/mxj/v2 v2.5.5 // indirect
 	github.com/dlclark/regexp2 v1.4.0 // indirect
 	github.com/fatih/camelcase v1.0.0 // indirect
 	github.com/google/martian v2.1.0+incompatible // indirect
